@@ -33,6 +33,7 @@ fn main() {
         std::process::exit(props::replay(&prop, &r));
     }
     let res = match prop.as_str() {
+        "C08" => props::c08::run(&cfg),
         "C15" => props::c15::run(&cfg),
         _ => {
             eprintln!("unknown property {}", prop);
